@@ -91,7 +91,7 @@ def classify(F, b, tb, bi):
                         err_t = tt['otherwise']
                     if (b.term(err_t) or {}).get('k') == 'unreachable':
                         continue
-                    vals = ret_values_under(b, tb, {}, start=err_t)
+                    vals = ret_values_under(b, tb, {('discr', strip_sites(tb.call_value(bi))): 1}, start=err_t)
                     nonerr = [v for v in vals if not _error_value(v[2])]
                     # a loop `continue` on Err is a swallow as well: the function goes on as if nothing happened
                     if nonerr or not vals:
